@@ -173,6 +173,10 @@ def base_post(u, res, dt, log, iterate):
     it_res = u.get(res, "iterate")
     u.ensure(any(it_res is s.fields["iterate"] for s in log["steps"]), "result.iterate_is_a_newton_step_iterate(in_box)")
     u.ensure(log["ns_args"][0] is iterate and log["ns_args"][1] is not None, "newton_steps_started_from_the_given_iterate")
+    # C15: "each trial uses exactly the inverse step size returned by the previous one" - the solve loop proves that
+    # compute_step receives dt = 1/lamb; here: the controller builds its Newton steps with THAT dt, not with one of its own
+    nd = log["ns_args"][2]
+    u.ensure((nd is dt) or (not isinstance(nd, (int, float)) and z3.is_expr(nd) and nd == dt) if not isinstance(nd, (int, float)) else nd == dt, "newton_steps_use_the_step_size_the_controller_was_given")
     return lam, acc
 
 
